@@ -1,0 +1,59 @@
+//go:build verif
+
+package ioutil
+
+// Contracts for govc (contract-based deductive verification, see /verif/DESIGN.md).
+// Comment-only: with the tag off this file is not compiled, with it on it adds no code.
+// Ghost state of the wrapped writer (wN, wErr, wCalls) and of channels (sends, lastSentInt, closes, closeSeq,
+// sendSeq) is declared in /verif/contracts/std.
+
+//@ func NewProgressWriter
+//@   modifies nothing
+//@   ensures result != nil && fresh(result) && result.wr == w && result.size == 0
+//@   ensures chan: result.status != nil && cap(result.status) == 0 && result.status.sends == 0 && result.status.closes == 0
+
+// sum: add n, then offer the new total without blocking
+//@ func (*ProgressWriter).sum
+//@   requires pw != nil && (pw.status != nil ==> pw.status.closes == 0)
+//@   arith-assumed
+//@   modifies pw.size, pw.status.sends, pw.status.lastSentInt, sendSeq
+//@   attr blocking-ops none
+//@   attr select#1 nonblocking send(pw.status,pw.size)
+//@   ensures size: pw.size == old(pw.size) + n
+//@   ensures offer.value: pw.status.sends == old(pw.status.sends) || (pw.status.sends == old(pw.status.sends) + 1 && pw.status.lastSentInt == pw.size)
+//@   ensures offer.nil: pw.status == nil ==> sendSeq == old(sendSeq)
+
+//@ func (*ProgressWriter).Size
+//@   requires pw != nil
+//@   modifies nothing
+//@   ensures result == pw.size
+
+//@ func (*ProgressWriter).Status
+//@   requires pw != nil
+//@   modifies nothing
+//@   ensures result == pw.status
+
+// Close: one blocking send of the final total, then close, in that order, nothing after
+//@ func (*ProgressWriter).Close
+//@   requires pw != nil && (pw.status != nil ==> pw.status.closes == 0)
+//@   modifies pw.status.sends, pw.status.lastSentInt, pw.status.closes, pw.status.closed, pw.status.closeSeq, sendSeq
+//@   attr blocking-ops send#1
+//@   ensures final: pw.status != nil ==> pw.status.sends == old(pw.status.sends) + 1 && pw.status.lastSentInt == pw.size && pw.status.closes == 1 && pw.status.closeSeq == sendSeq
+//@   ensures nochan: pw.status == nil ==> sendSeq == old(sendSeq)
+//@   ensures size: pw.size == old(pw.size)
+
+//@ func (*ProgressWriter).Write
+//@   requires pw != nil && pw.wr != nil && (pw.status != nil ==> pw.status.closes == 0)
+//@   modifies wN, wErr, wCalls, pw.size, pw.status.sends, pw.status.lastSentInt, sendSeq
+//@   attr blocking-ops call(Write)#1
+//@   ensures passthrough: n == wN && err == wErr && wCalls == old(wCalls) + 1
+//@   ensures size: pw.size == old(pw.size) + n
+//@   ensures offer: pw.status.sends == old(pw.status.sends) || (pw.status.sends == old(pw.status.sends) + 1 && pw.status.lastSentInt == pw.size)
+
+//@ func (*ProgressWriter).WriteString
+//@   requires pw != nil && pw.wr != nil && (pw.status != nil ==> pw.status.closes == 0)
+//@   modifies wN, wErr, wCalls, pw.size, pw.status.sends, pw.status.lastSentInt, sendSeq
+//@   attr blocking-ops call(WriteString)#1,call(Write)#1
+//@   ensures passthrough: n == wN && err == wErr && wCalls == old(wCalls) + 1
+//@   ensures size: pw.size == old(pw.size) + n
+//@   ensures offer: pw.status.sends == old(pw.status.sends) || (pw.status.sends == old(pw.status.sends) + 1 && pw.status.lastSentInt == pw.size)
